@@ -29,189 +29,26 @@ MANIFEST = dict(
     technique="Coq proof (merge-tree + schedule theorems) + enumerated-schedule correspondence against the real worker/merge code "
               "+ real spawned run")
 
-THREADS = 32
-CLASSNAME = {"cms": "CountMinLinear", "hh": "HeavyHitters", "hll": "HyperLogLog"}
-
-
-def jsonable_items(items):
-    return pc.items_to_json(items)
-
-
-class Suite:
-    def __init__(self, ctx, env, cfg, universe, bm):
-        self.ctx, self.env, self.cfg, self.universe, self.bm = ctx, env, cfg, universe, bm
-        self.nviol = 0
-        self.cms_cases, self.hll_cases, self.shape_cases, self.mon_cases = [], [], {}, []
-        self.meta = {"cms": [], "hll": [], "mon": []}
-        self.n_sched = 0
-
-    def violation(self, replay, what):
-        self.nviol += 1
-        if self.nviol <= 4:
-            self.ctx.violation(replay, what)
-
-    def check_result(self, items, res, suite):
-        """everything that is checked on one in-process schedule run"""
-        ctx = self.ctx
-        sched, combo = res["sched"], tuple(res["combo"])
-        n = len(sched)
-        self.n_sched += 1
-        rep = {"suite": suite, "items": jsonable_items(items), "schedule": sched, "combo": list(combo), "cfg": self.cfg}
-        ctx.case_seen((suite, combo, repr(items), repr(sched)), n >= 2)
-        ctx.count("n_workers=%d" % n)
-        ctx.count("combo=" + "+".join(combo))
-        ctx.count("idle_workers=%d" % sum(1 for w in sched if not w))
-        if res["errors"] or any(c != 0 for c in res["exitcodes"]) or res["log_errors"]:
-            self.violation(dict(rep, errors=res["errors"], exitcodes=res["exitcodes"], logged=res["log_errors"]),
-                           "worker or merge raised on a fault-free stream")
-            return
-        for w, left in enumerate(res["queue_left"]):
-            if left != [("sentinel-after-pill", w)]:
-                self.violation(dict(rep, worker=w, queue_left=repr(left)),
-                               "_worker did not consume exactly its items and one pill")
-                return
-        for kind in combo:
-            fin = res["final"].get(kind)
-            if fin is None:
-                self.violation(dict(rep, kind=kind), "parallel_merging returned nothing")
-                return
-            # merge order: every worker sketch used exactly once, in the model's tree
-            if res["n_trees_left"][kind] != 1 or res["tree"][kind] != pc.py_tree(n):
-                self.violation(dict(rep, kind=kind, observed_tree=repr(res["tree"][kind]), expected=repr(pc.py_tree(n)),
-                                    unmerged=res["n_trees_left"][kind] - 1),
-                               "parallel_merging did not merge every worker sketch exactly once in pairwise rounds")
-                return
-            self.shape_cases[(n, repr(res["tree"][kind]), res["rounds"][kind], tuple(res["per_round"][kind]))] = res["tree"][kind]
-            bad = pc.predicate(kind, fin, items, self.universe, bm=self.bm, depth=self.cfg["cms"]["depth"],
-                               seq=res["seq"][kind])
-            if bad:
-                self.violation(dict(rep, kind=kind, failed=bad, result={k: repr(v) for k, v in fin.items()}),
-                               "C08 predicate: " + bad["clause"])
-                return
-            if kind != "hll":
-                # n_records is added once per worker, at its pill
-                for w, ws in enumerate(res["workers"][kind]):
-                    exp = sum(pc.ok_ret(items[i]) for i in sched[w])
-                    if ws["n_records"] != exp:
-                        self.violation(dict(rep, kind=kind, worker=w, n_records=ws["n_records"], expected=exp),
-                                       "worker sketch n_records != sum of its callback returns")
-                        return
-        if "cms" in combo:
-            self.cms_cases.append("(" + pc.coq_cms_case(self.cfg, self.bm, items, sched, res["workers"]["cms"],
-                                                        res["final"]["cms"]) + " : cms_case)")
-            self.meta["cms"].append(rep)
-        if "hll" in combo:
-            self.hll_cases.append("(" + pc.coq_hll_case(self.cfg, items, sched, res["final"]["hll"]) + " : hll_case)")
-            self.meta["hll"].append(rep)
-
-    def run_schedules(self, items, scheds, combo, suite):
-        env, cfg, uni = self.env, self.cfg, self.universe
-        t = time.time()
-        for res in pc.run_pool(lambda s: pc.run_schedule(env, combo, cfg, items, s, uni), scheds, THREADS):
-            self.check_result(items, res, suite)
-            if self.nviol > 4:
-                break
-        self.ctx.tick(f"{suite}: {len(scheds)} schedules x {'+'.join(combo)} in {time.time() - t:.1f}s")
-
-    def check_whole(self, items, res):
-        """one whole in-process parallel_add"""
-        ctx = self.ctx
-        combo, plan = tuple(res["combo"]), res["plan"]
-        n = len(plan)
-        rep = {"suite": "whole-parallel_add", "items": jsonable_items(items), "schedule": plan, "combo": list(combo),
-               "cfg": self.cfg}
-        ctx.case_seen(("whole", combo, repr(items), repr(plan)), n >= 2)
-        ctx.count("whole_parallel_add n_workers=%d" % n)
-        if res["raised"]:
-            self.violation(dict(rep, raised=res["raised"]), "parallel_add raised on a fault-free stream")
-            return
-        if res.get("returned_types") != [CLASSNAME[k] for k in combo]:
-            self.violation(dict(rep, returned=res.get("returned_types")),
-                           "parallel_add did not return the requested sketches in the order cms, hh, hll")
-            return
-        served = sorted(p for _, p in res["served"])
-        if res["items_put"] != len(items) or res["pills_put"] != n or served != list(range(len(items))):
-            self.violation(dict(rep, items_put=res["items_put"], pills_put=res["pills_put"], served=res["served"]),
-                           "_fill_queue did not put every item once and one pill per worker")
-            return
-        if res["n_merge_started"] != (n - 1) * len(combo) or res["kills"] or res["queues_closed"]:
-            self.violation(dict(rep, mergers=res["n_merge_started"], kills=res["kills"]),
-                           "fault-free parallel_add started the wrong number of mergers or killed/closed something")
-            return
-        for kind in combo:
-            seq = pc.sequential(self.env, kind, self.cfg, items, self.universe)
-            bad = pc.predicate(kind, res["final"][kind], items, self.universe, bm=self.bm,
-                               depth=self.cfg["cms"]["depth"], seq=seq)
-            if bad:
-                self.violation(dict(rep, kind=kind, failed=bad), "C08 predicate (whole parallel_add): " + bad["clause"])
-                return
-        self.mon_cases.append("(" + pc.coq_mon_case(n, combo, [(res["codes"], False)], False, False, len(combo)) + " : mon_case)")
-        self.meta["mon"].append(rep)
-
-
-def eval_real(ctx, suite, r, spec, items, universe, cfg, bm, env):
-    """the real spawned run: must return, every item processed exactly once, results as the property says;
-    returns the observed schedule (for the model) or None"""
-    rep = {"suite": "real-spawned-run", "n_workers": spec["n_workers"], "items": spec["items"], "combo": spec["combo"],
-           "cfg": cfg, "outcome": {k: v for k, v in r.items() if k not in ("final", "trace")}}
-    if r.get("hung"):
-        suite.violation(rep, "real parallel_add did not return within the hard timeout")
-        return None
-    if r.get("broken"):
-        ctx.broken.append("real spawned run could not be evaluated: " + r["broken"])
-        return None
-    if r["raised"]:
-        suite.violation(rep, f"real parallel_add raised {r['raised']}: {r.get('message')}")
-        return None
-    combo = tuple(spec["combo"])
-    if r.get("returned_types") != [CLASSNAME[k] for k in combo]:
-        suite.violation(dict(rep, returned=r.get("returned_types")), "real parallel_add returned the wrong sketches")
-        return None
-    sched, n_active = pc.observed_schedule(r["trace"], spec["n_workers"])
-    seen = sorted(i for w in sched for i in w)
-    if seen != list(range(len(items))) or len(sched) != spec["n_workers"]:
-        suite.violation(dict(rep, observed_schedule=sched), "an item was not processed exactly once (callback side channel)")
-        return None
-    if r["orphans"] or r["shm_left"]:
-        suite.violation(dict(rep, orphans=r["orphans"], shm_left=r["shm_left"]),
-                        "parallel_add left processes or shared-memory blocks behind")
-        return None
-    fin = {}
-    for kind in combo:
-        s = r["final"][kind]
-        if kind == "cms":
-            s = dict(s, q=[(bytes(k), v) for k, v in s["q"]])
-        elif kind == "hh":
-            s = dict(s, get=[(bytes(k), v) for k, v in s["get"]], query=[(bytes(k), v) for k, v in s["query"]])
-        fin[kind] = s
-        seq = pc.sequential(env, kind, cfg, items, universe)
-        bad = pc.predicate(kind, s, items, universe, bm=bm, depth=cfg["cms"]["depth"], seq=seq)
-        if bad:
-            suite.violation(dict(rep, kind=kind, failed=bad, observed_schedule=sched), "C08 predicate (real run): " + bad["clause"])
-            return None
-    ctx.count("real_runs_ok")
-    ctx.cov.setdefault("real_runs", []).append({"n_workers": spec["n_workers"], "wall_s": r["wall"], "call_s": r.get("call_s"),
-                                                "observed_schedule": sched, "workers_that_got_items": n_active})
-    return sched, fin
-
-
 def run(ctx):
     ctx.level = "proof"
     quick = ctx.tier == "quick"
     rng = ctx.rng
     cfg = pc.DEFAULT_CFG
     universe = list(pc.KEYS)
+    if getattr(ctx, "replay_file", None):
+        pc.replay(ctx, ctx.replay_file)
+        return
     shm0 = pc.shm_listing()
 
     # ---- layer 2 first: the real spawned run and the F2 probe start now and run in the background
     real_items = pc.gen_items(rng, 6)
-    base = {"combo": ["cms", "hh", "hll"], "cfg": cfg, "universe": [list(k) for k in universe],
+    base = {"combo": ["cms", "hh", "hll"], "cfg": cfg, "universe": [list(k) for k in universe], "delay": 1.0,
             "items": pc.items_to_json(real_items)}
-    handles = []
-    real_ns = [2] if quick else [1, 2, 3, 5]
-    handles.append(("f2", pc.launch_real(ctx, "f2", dict(base, mode="f2", n_workers=2), 420)))
-    handles.append(("real2", pc.launch_real(ctx, "n2", dict(base, mode="c08", n_workers=2), 420)))
-    pending_real = [n for n in real_ns if n != 2]
+    real_ns = [2] if quick else [2, 1, 3, 5]
+    RR = pc.RealRuns(ctx, width=2)
+    RR.add("f2", dict(base, mode="f2", n_workers=2), 420)
+    for n in real_ns:
+        RR.add(f"real{n}", dict(base, mode="c08", n_workers=n), 600)
 
     env = pc.Env(ctx)
     import logging
@@ -219,37 +56,43 @@ def run(ctx):
     logging.getLogger("sketchnu.helpers").propagate = False
     ctx.tick("imported; real runs started in the background")
     bm = pc.probe_buckets(env, cfg, universe)
-    S = Suite(ctx, env, cfg, universe, bm)
+    S = pc.Suite(ctx, env, cfg, universe, bm)
 
-    # ---- S1: complete enumeration, count-min only (exact model comparison)
-    n1 = 4 if quick else 5
-    items1 = pc.gen_items(rng, n1)
-    scheds1 = [s for n in (1, 2, 3) for s in pc.all_schedules(n1, n)]
-    S.run_schedules(items1, scheds1, ("cms",), "S1-complete")
-    # ---- S2: complete enumeration of a smaller space with all three sketches at once
-    n2 = 3 if quick else 4
-    items2 = pc.gen_items(rng, n2)
-    scheds2 = [s for n in ((1, 2, 3) if quick else (1, 2, 3, 4)) for s in pc.all_schedules(n2, n)]
-    S.run_schedules(items2, scheds2, ("cms", "hh", "hll"), "S2-complete")
-    # ---- S3: worker counts for the merge rounds, and the 7 combinations of sketches
-    items3 = pc.gen_items(rng, 5 if quick else 6)
-    for n in ((4, 5) if quick else (4, 5, 6, 7, 8, 9)):
-        S.run_schedules(items3, pc.some_schedules(rng, len(items3), n, 2 if quick else 4), ("cms", "hll"), "S3-rounds")
-    combo_scheds = pc.some_schedules(rng, len(items3), 3, 2 if quick else 6)
-    for j, combo in enumerate(pc.COMBOS):
-        S.run_schedules(items3, [combo_scheds[j % 2]] if quick else combo_scheds, combo, "S3-combos")
     # ---- S4: the whole parallel_add in-process (queue steered by the harness)
-    whole = []
+    items3 = pc.gen_items(rng, 5 if quick else 6)
+    n_whole = 0
     for j, combo in enumerate(pc.COMBOS):
         ns = [[1, 2, 3, 5][j % 4]] if quick else [1, 2, 3, 5]
         if combo == ("cms", "hh", "hll"):
             ns = [1, 2, 3, 5]
         for n in ns:
-            whole.append((combo, pc.some_schedules(rng, len(items3), n, 3)[rng.randrange(3) if n > 1 else 0]))
-    t = time.time()
-    for res in pc.run_pool(lambda c: pc.run_parallel_add(env, c[0], cfg, items3, c[1], universe), whole, THREADS):
-        S.check_whole(items3, res)
-    ctx.tick(f"S4: {len(whole)} whole in-process parallel_add runs in {time.time() - t:.1f}s")
+            ss = pc.some_schedules(rng, len(items3), n, 3)
+            S.add_whole(items3, combo, ss[rng.randrange(len(ss))])
+            n_whole += 1
+    S.add_whole([], ("cms", "hll"), [[], []])          # the empty stream
+    n_whole += 1
+    # ---- S3: worker counts for the merge rounds, and the 7 combinations of sketches
+    for n in ((4, 5) if quick else (4, 5, 6, 7, 8, 9)):
+        S.add(items3, pc.some_schedules(rng, len(items3), n, 2 if quick else 4), ("cms", "hll"), "S3-rounds")
+    combo_scheds = pc.some_schedules(rng, len(items3), 3, 2 if quick else 6)
+    for j, combo in enumerate(pc.COMBOS):
+        S.add(items3, [combo_scheds[j % 2]] if quick else combo_scheds, combo, "S3-combos")
+    # ---- Q: callback returns summing to a negative number: np.uint64(n_records) raises inside the bare
+    # try/except of _worker l.214-218 and nothing is added.  Outside C08's hypotheses (record counts are
+    # non-negative): only the model's transcription of that guard is compared.
+    itemsq = [pc.make_item(i, adds, ret - 4) for (i, adds, ret, _, _) in pc.gen_items(rng, 4)]
+    S.add(itemsq, pc.some_schedules(rng, 4, 2, 3), ("cms",), "Q-negative-returns")
+    # ---- S2: complete enumeration of a smaller space with all three sketches at once
+    n2 = 3 if quick else 4
+    items2 = pc.gen_items(rng, n2)
+    scheds2 = [s for n in (1, 2, 3) for s in pc.all_schedules(n2, n)]
+    S.add(items2, scheds2, ("cms", "hh", "hll"), "S2-complete")
+    # ---- S1: complete enumeration, count-min only (exact model comparison)
+    n1 = 4 if quick else 5
+    items1 = pc.gen_items(rng, n1)
+    scheds1 = [s for n in (1, 2, 3) for s in pc.all_schedules(n1, n)]
+    S.add(items1, scheds1, ("cms",), "S1-complete")
+    S.run_all()
     # l.301-302: no sketch arguments -> ValueError before anything is started
     with env.syncctx.use(env.syncctx.Context()) as c0:
         try:
@@ -260,60 +103,27 @@ def run(ctx):
                 S.violation({"suite": "no-args", "events": repr(c0.events)}, "parallel_add started something before rejecting")
 
     # ---- model side: the same cases inside Coq
-    shape_cases = []
-    for (n, _, rounds, per_round), tree in S.shape_cases.items():
-        shape_cases.append(f"({n}, {pc.coq_tree(tree)}, {rounds}, {lib.zlist(per_round)})")
-    for tag, chk, cases, shard in (("shape", "check_shape", shape_cases, 50), ("cms", "check_cms_case", S.cms_cases, 130),
-                                   ("hll", "check_hll_case", S.hll_cases, 60), ("mon", "check_mon_case", S.mon_cases, 60)):
-        bad, err = ctx.coq_bad_cases(tag, pc.IMPORTS, chk, cases, shard=shard)
-        if err:
-            ctx.broken.append(f"correspondence merge-tree ({tag}) could not be evaluated: {err}")
-        if bad:
-            i = sorted(bad)[0]
-            rep = S.meta[tag][i] if tag in S.meta else {"case": cases[i]}
-            show = ""
-            if tag == "shape":
-                show = ctx.coq_show("shape", pc.IMPORTS, f"pm_shape {shape_cases[i].split(',')[0][1:]}")[:300]
-            ctx.broken.append(f"correspondence merge-tree ({tag}): model and implementation differ on {len(bad)} of "
-                              f"{len(cases)} cases, first: {json.dumps(rep, default=repr)[:600]} {show}")
-        ctx.cov["model_cases_%s" % tag] = len(cases)
-    ctx.tick("model evaluated in Coq")
-    ctx.cov["traces_validated_against_impl"] = S.n_sched + len(whole)
+    S.run_model()
+    ctx.cov["traces_validated_against_impl"] = S.n_sched + n_whole
 
     # ---- collect the real runs
     f2 = None
     real_cases = {"cms": [], "hll": []}
-    while handles:
-        tag, h = handles.pop(0)
-        r = pc.collect_real(h)
+    for tag, h, r in RR.results():
         ctx.tick(f"real run {tag} finished after {r.get('wall')}s")
         if tag == "f2":
             f2 = r
         else:
-            out = eval_real(ctx, S, r, h["spec"], real_items, universe, cfg, bm, env)
+            out = pc.eval_real(ctx, S, r, h["spec"], real_items, universe, cfg, bm, env)
             if out:
                 sched, fin = out
                 if "cms" in fin:
-                    real_cases["cms"].append((sched, fin["cms"]))
+                    real_cases["cms"].append((real_items, sched, fin["cms"]))
                 if "hll" in fin:
-                    real_cases["hll"].append((sched, fin["hll"]))
-        if pending_real and len(handles) < 2:
-            n = pending_real.pop(0)
-            handles.append((f"real{n}", pc.launch_real(ctx, f"n{n}", dict(base, mode="c08", n_workers=n), 600)))
+                    real_cases["hll"].append((real_items, sched, fin["hll"]))
     # the model on the schedules the real runs actually had (final state only)
     if real_cases["cms"] or real_cases["hll"]:
-        cc = [f"(({cfg['cms']['width']}%nat, {cfg['cms']['depth']}%nat, {cms_common.coq_bmap(bm)}, "
-              f"{pc.coq_outs(real_items, 'cms')}, {pc.coq_sched(s)}, {pc.coq_expect_cms(f)}) : real_cms_case)"
-              for s, f in real_cases["cms"]]
-        hc = ["(" + pc.coq_hll_case(cfg, real_items, s, f) + " : hll_case)" for s, f in real_cases["hll"]]
-        for tag, chk, cases in (("realcms", "check_real_cms_case", cc), ("realhll", "check_hll_case", hc)):
-            bad, err = ctx.coq_bad_cases(tag, pc.IMPORTS, chk, cases, shard=10)
-            if err:
-                ctx.broken.append(f"correspondence merge-tree ({tag}) could not be evaluated: {err}")
-            if bad:
-                ctx.broken.append(f"correspondence merge-tree ({tag}): the model evaluated on the schedule observed in the real "
-                                  f"spawned run differs from the returned sketch ({len(bad)} of {len(cases)})")
-        ctx.cov["model_cases_real_runs"] = len(cc) + len(hc)
+        S.run_model_real(real_items, real_cases)
 
     # ---- known finding F2
     kf = [f for f in lib.load_known_findings() if f["id"] == "F2"]
@@ -337,7 +147,7 @@ def run(ctx):
     else:
         # generators accepted: then the result must be right
         spec = dict(base, mode="f2", n_workers=2)
-        out = eval_real(ctx, S, f2, spec, real_items, universe, cfg, bm, env)
+        out = pc.eval_real(ctx, S, f2, spec, real_items, universe, cfg, bm, env)
         if out:
             ctx.notes.append("F2 witness no longer fails: parallel_add accepted a generator and returned the right sketches")
     ctx.cov["f2_probe"] = rep["outcome"]
@@ -350,16 +160,19 @@ def run(ctx):
     env.close()
 
     ctx.cov["exhaustive"] = True
+    ctx.cov["real_spawned_parallel_add_calls"] = 1 + len(real_ns)
     ctx.cov["schedules_enumerated"] = S.n_sched
     ctx.cov["rule"] = (
         f"EXHAUSTIVE sub-spaces (exhaustive only for these): S1 = all {len(scheds1)} schedules (every assignment of {n1} items to "
         f"1, 2 and 3 labelled workers with every per-worker order, idle workers included) with a linear count-min sketch; S2 = all "
-        f"{len(scheds2)} schedules of {n2} items on 1..{3 if quick else 4} workers with count-min + heavy hitters + HyperLogLog at once. "
+        f"{len(scheds2)} schedules of {n2} items on 1..3 workers with count-min + heavy hitters + HyperLogLog at once. "
         "Each schedule: per worker the real helpers._worker is driven with exactly its items and a pill on real shared-memory sketches, "
         "then the real helpers.parallel_merging (which starts the real _merge_worker) under harness/syncctx. Sampled: S3 = worker counts "
         f"{'4,5' if quick else '4..9'} (merge rounds with a carried-over sketch) and each of the 7 combinations of cms/hh/hll; S4 = "
-        f"{len(whole)} whole in-process parallel_add calls (real _fill_queue, monitor loop, merging, return tuple; queue steered by the "
-        "harness) over the 7 combinations and n_workers in {1,2,3,5}. Items: 0..3 adds each over the alphabet "
+        f"{n_whole} whole in-process parallel_add calls (real _fill_queue, monitor loop, merging, return tuple; queue steered by the "
+        "harness) over the 7 combinations and n_workers in {1,2,3,5}; Q = 3 schedules whose callback returns sum to a negative number "
+        "(outside the property's hypotheses: np.uint64(n_records) raises inside the worker's bare try/except and nothing is added; "
+        "only the model's transcription of that guard is compared). Items: 0..3 adds each over the alphabet "
         "{'', NUL, a, a+NUL, ab, b, ff80, NULNUL}, multiplicities 1..5, width 3 x depth 2 count-min, 2x2 heavy hitters, p=7 HyperLogLog. "
         "Predicate on the implementation: HLL registers == sequential sketch; n_added == total multiplicity; n_records == sum of callback "
         "returns (also per worker); C01 sandwich w.r.t. the whole stream (bucket map observed on a probe); hh[k] <= true count and "
